@@ -41,6 +41,7 @@ var allow = map[string]bool{
 	"math/bits.Mul64": true, "math/bits.Add64": true, "math/bits.Sub64": true,
 	"(encoding/binary.littleEndian).Uint64": true, "(encoding/binary.littleEndian).PutUint64": true,
 	"crypto/subtle.ConstantTimeByteEq": true, "crypto/subtle.ConstantTimeCompare": true,
+	"crypto/subtle.ConstantTimeEq": true, "crypto/subtle.ConstantTimeSelect": true, "crypto/subtle.ConstantTimeLessOrEq": true,
 	"errors.New": true, "(*sync.Once).Do": true,
 }
 
@@ -313,7 +314,14 @@ func (e *Engine) callResultTaint(fi *effects.FuncInfo, c *ssa.Call, k int) bool 
 	cc := c.Common()
 	if b, ok := cc.Value.(*ssa.Builtin); ok {
 		switch b.Name() {
-		case "len", "cap", "copy", "append":
+		case "len", "cap", "copy", "append", "clear":
+			return false
+		case "min", "max":
+			for _, a := range cc.Args {
+				if e.tainted(a) {
+					return true
+				}
+			}
 			return false
 		}
 		return true
@@ -419,7 +427,15 @@ func (e *Engine) exprKey(v ssa.Value, depth int) string {
 	case *ssa.Global:
 		return x.Name()
 	case *ssa.BinOp:
-		return e.exprKey(x.X, depth+1) + x.Op.String() + e.exprKey(x.Y, depth+1)
+		op := x.Op.String()
+		if x.Op == token.NEQ {
+			switch x.X.Type().Underlying().(type) {
+			case *types.Struct, *types.Array:
+				// a != b on aggregates is the same comparison (and the same decision) as a == b: one construct, one key
+				op = token.EQL.String()
+			}
+		}
+		return e.exprKey(x.X, depth+1) + op + e.exprKey(x.Y, depth+1)
 	case *ssa.UnOp:
 		if x.Op == token.MUL {
 			return e.exprKey(x.X, depth+1)
